@@ -14,7 +14,7 @@ fn gen_seq(r: &mut Rng, init: &Init) -> Vec<Stmt> {
     let mut out = vec![];
     for i in 0..n {
         let pickk = |r: &mut Rng, keys: &Vec<i64>| if !keys.is_empty() && r.chance(4, 5) { *r.pick(keys) } else { r.range(1, 9) };
-        let s = match if i == 0 { r.below(3) } else { r.below(11) } {
+        let s = match if i == 0 { r.below(4) } else { r.below(19) } {
             0 | 1 => {
                 let rows = gen_rows(r, &[], false, false);
                 keys.extend(rows.iter().map(|x| x.0));
@@ -25,7 +25,29 @@ fn gen_seq(r: &mut Rng, init: &Init) -> Vec<Stmt> {
                 keys.push(k);
                 Stmt::Merge(k)
             }
-            3 | 4 | 5 => {
+            3 | 11 => {
+                let rows = gen_rows(r, &[], false, false);
+                keys.extend(rows.iter().map(|x| x.0));
+                Stmt::CreateNL(rows)
+            }
+            12 | 13 => Stmt::ScanSet(r.below(2) as u8, r.range(-5, 20)),
+            14 | 15 => {
+                // REMOVE of a label the database has never interned is skipped by the code (no buffered removal):
+                // outside the model, so a fresh label is only removed after it was set on a non-empty scan
+                let l = 1 + r.below(2) as u8;
+                let set_before = !init.nodes.is_empty() && out.iter().any(|s| matches!(s, Stmt::ScanLabel(true, x) if *x == l));
+                Stmt::ScanLabel(!(set_before && r.chance(1, 2)), l)
+            }
+            16 => {
+                if r.chance(1, 3) {
+                    Stmt::ScanDelete(r.chance(1, 2))
+                } else {
+                    Stmt::ScanLoop
+                }
+            }
+            17 => Stmt::LabelSet(r.below(3) as u8, r.below(2) as u8, r.range(-5, 20)),
+            18 => Stmt::ScanLabel(init.nodes.is_empty() || r.chance(1, 2), 0),
+            4 | 5 => {
                 let bad = r.chance(1, 8);
                 Stmt::Set(r.below(2) as u8, gen_rows(r, &keys, bad, false))
             }
@@ -39,30 +61,80 @@ fn gen_seq(r: &mut Rng, init: &Init) -> Vec<Stmt> {
     out
 }
 
-/// K-C24-snapshot on the input: a statement reads (MATCH/MERGE filter) a key that an earlier
-/// statement of the same transaction wrote (created, updated, deleted or connected).  DETACH DELETE
-/// also writes the neighbours of the deleted node (it removes their relationships): neighbours in
-/// the initial database or through relationships created earlier in the transaction.
+/// K-C24-snapshot on the input — what really fails today.  Inside one transaction
+///  (a) a key-filtered statement (MATCH (n:L) WHERE n.k = .. / MERGE) reads a key that an earlier statement
+///      wrote (created, updated, deleted, connected; DETACH DELETE also writes the neighbours), or runs after
+///      an unlabelled-scan DELETE or a scan that sets / removes the label :L the filter relies on;
+///  (b) a labelled scan MATCH (n:<label>) runs after the label was set / removed, after a node carrying it was
+///      created, or after any deletion;
+///  (c) a plain DELETE (safety check against the committed relationships) runs after relationships were
+///      created or removed.
+/// Statements driven by the unlabelled scan MATCH (n) after CREATEs (with or without labels), property and
+/// label writes are NOT in the class: they see the staged nodes, and must keep doing so.
 fn reads_earlier_write(init: &Init, stmts: &[Stmt]) -> bool {
     let mut written: Vec<i64> = vec![];
     let mut links: Vec<(i64, i64)> = init.edges.iter().map(|(a, b)| (init.nodes[*a].0, init.nodes[*b].0)).collect();
+    let (mut wrote_all, mut edges_changed, mut deleted_any) = (false, false, false);
+    let mut labels_touched: Vec<u8> = vec![];
     for s in stmts {
-        if s.reads().iter().any(|k| written.contains(k)) {
+        let key_filtered = matches!(s, Stmt::Set(..) | Stmt::Delete(..) | Stmt::Link(..) | Stmt::Merge(_) | Stmt::DeleteIn(..) | Stmt::DeleteRel(_));
+        if key_filtered && (wrote_all || s.reads().iter().any(|k| written.contains(k))) {
             return true;
+        }
+        if matches!(s, Stmt::Delete(false, _) | Stmt::ScanDelete(false)) && edges_changed {
+            return true;
+        }
+        if let Stmt::LabelSet(l, _, _) = s {
+            if labels_touched.contains(l) || deleted_any {
+                return true;
+            }
         }
         written.extend(s.writes());
         match s {
-            Stmt::Link(a, b) => links.push((*a, *b)),
-            Stmt::Delete(true, k) => {
-                for (a, b) in &links {
-                    if a == k {
-                        written.push(*b);
-                    }
-                    if b == k {
-                        written.push(*a);
+            Stmt::Link(a, b) => {
+                links.push((*a, *b));
+                edges_changed = true;
+            }
+            Stmt::ScanLoop => edges_changed = true,
+            Stmt::Delete(detach, k) => {
+                deleted_any = true;
+                if *detach {
+                    edges_changed = true;
+                    for (a, b) in &links {
+                        if a == k {
+                            written.push(*b);
+                        }
+                        if b == k {
+                            written.push(*a);
+                        }
                     }
                 }
             }
+            Stmt::ScanDelete(detach) => {
+                deleted_any = true;
+                wrote_all = true;
+                edges_changed |= *detach;
+            }
+            Stmt::ScanLabel(_, l) => {
+                labels_touched.push(*l);
+                if *l == 0 {
+                    wrote_all = true; // the key-filtered statements match on :L
+                }
+            }
+            Stmt::Create(_) | Stmt::Merge(_) => labels_touched.push(0), // a staged node carries :L
+            _ => {}
+        }
+    }
+    false
+}
+
+/// K-C24-label-order on the input: a label removed earlier in the transaction is added again
+fn label_readded(stmts: &[Stmt]) -> bool {
+    let mut removed: Vec<u8> = vec![];
+    for s in stmts {
+        match s {
+            Stmt::ScanLabel(false, l) => removed.push(*l),
+            Stmt::ScanLabel(true, l) if removed.contains(l) => return true,
             _ => {}
         }
     }
@@ -90,6 +162,16 @@ fn main() {
         // delete, then update of the deleted node; independent statements
         (two.clone(), vec![Stmt::Delete(false, 1), Stmt::Set(0, vec![(1, Cell::Int(3))]), Stmt::Create(vec![(7, Cell::Int(7))])]),
         (two.clone(), vec![Stmt::Create(vec![(7, Cell::Int(7))]), Stmt::Set(1, vec![(2, Cell::Int(3))])]),
+        // what works today and must keep working (seeded gaps m1, m2): a label never interned before is set and then
+        // removed inside the transaction; a label-less node created earlier is found by MATCH (n)
+        (two.clone(), vec![Stmt::ScanLabel(true, 1), Stmt::ScanLabel(false, 1)]),
+        (empty.clone(), vec![Stmt::Create(vec![(1, Cell::Int(1))]), Stmt::ScanLabel(true, 2), Stmt::ScanLabel(false, 2), Stmt::ScanSet(1, 4)]),
+        (two.clone(), vec![Stmt::CreateNL(vec![(7, Cell::Int(0))]), Stmt::ScanSet(1, 9), Stmt::ScanLoop]),
+        (empty.clone(), vec![Stmt::CreateNL(vec![(1, Cell::Int(1)), (2, Cell::Int(2))]), Stmt::ScanLabel(true, 1), Stmt::ScanDelete(false)]),
+        // K-C24-label-order witness
+        (two.clone(), vec![Stmt::ScanLabel(false, 0), Stmt::ScanLabel(true, 0)]),
+        // still K-C24-snapshot: a labelled scan on a label set earlier in the transaction
+        (two.clone(), vec![Stmt::ScanLabel(true, 1), Stmt::LabelSet(1, 1, 9)]),
     ];
     let mut cases = 0usize;
     for idx in 0..a.n {
@@ -129,7 +211,7 @@ fn main() {
             fails += 1;
             // a statement failing after partial writes is C13's finding, not this one: only tag when no statement failed dirty
             let dirty = stmts.iter().zip(&st).any(|(s, ok)| !*ok && init.fails_dirty(s));
-            let class = if known && !dirty { Some("K-C24-snapshot") } else if dirty && !known { Some("K-C13-buffer-in-C24") } else if known { Some("K-C24-snapshot") } else { None };
+            let class = if known { Some("K-C24-snapshot") } else if dirty { Some("K-C13-buffer-in-C24") } else if label_readded(&stmts) { Some("K-C24-label-order") } else { None };
             *hist.entry(format!("direct-failure:{}", class.unwrap_or("unclassified"))).or_insert(0) += 1;
             rep.fail(
                 idx,
@@ -144,7 +226,7 @@ fn main() {
         "evaluations": a.n,
         "corr_cases": cases,
         "distinct_nontrivial": nontrivial.len(),
-        "rule": "sequences of 2-5 statements inside one explicit C API transaction (first statement creates; later ones SET / DELETE / DETACH DELETE / connect / MERGE keys written earlier with probability 4/5) on databases of 0-4 nodes; each sequence is also run statement by statement in auto-commit mode on an identical database; non-trivial = some statement reads a key written earlier in the same transaction, distinct by (database, statements)",
+        "rule": "sequences of 2-5 statements inside one explicit C API transaction (first statement creates, with or without a label; later ones SET / DELETE / DETACH DELETE / connect / MERGE keys written earlier with probability 4/5, or are driven by the unlabelled scan MATCH (n): SET property, SET / REMOVE a label never interned before, CREATE relationship, DELETE; or by a labelled scan) on databases of 0-4 nodes; each sequence is also run statement by statement in auto-commit mode on an identical database; non-trivial = some statement reads a key written earlier in the same transaction, distinct by (database, statements)",
         "histogram": hist,
         "direct_failures": fails,
         "case_files": cw.files.iter().map(|p| p.to_string_lossy().to_string()).collect::<Vec<_>>(),
